@@ -88,6 +88,18 @@ def holdsStream (me : Bytes) (evs : List Ev) (tail : Tail) (ps : List Nat) (o : 
   checkReads eofOk (!eofOk) e.1 ps o.reads &&
   (!eofOk || !o.rbroken) && !o.wbroken
 
+/-- **Both directions on an observation**: the forward phase satisfies the stream property; in the
+reverse phase (B writes on the stream it has just read from, A reads on the stream it has written to)
+B's writes are accepted iff B had not half-closed before, A is given exactly what B sent for the tunnel
+before B's first close — or an immediate end-of-stream if B had half-closed —, then end-of-stream; A's
+connection is not marked broken and B's flag is what the forward phase left. -/
+def holdsDuplex (me : Bytes) (evs : List Ev) (tail : Tail) (rw : Bool) (ps : List Nat)
+    (rvEvs : List Ev) (rps : List Nat) (o : DxObs) : Bool :=
+  holdsStream me evs tail ps o.fwd &&
+  o.rev.writes == expectedWrites (!rw) rvEvs &&
+  checkReads true false (if rw then [] else (expected me rvEvs).1) rps o.rev.reads &&
+  !o.rev.rbroken && o.rev.wbroken == o.fwd.rbroken
+
 /-! ### Forwarding through a stream (`runBidirectionalForward`) -/
 
 /-- What the two far ends of a forwarded tunnel see. -/
